@@ -489,6 +489,86 @@ def op_grpc_session(o):
         srv.stop()
     return {"calls": results, "wrapped": None, "stubs_all": kinds}
 
+def op_grpc_multi_session(o):
+    """(C03) SEVERAL clients of one service in ONE interpreter, each bound to its own loopback server/channel.
+    {"client": "pkg:Client", "transport": "...:XGrpcTransport", "async": bool, "servers": ["A", "B"],
+     "steps": [{"do": "create", "name": "a", "server": "A"},
+               {"do": "call", "client": "a", "script": {"A": {path: [beh…]}, "B": {…}}, …call fields of build_args…},
+               {"do": "close", "name": "a"}]}
+    Every step result of a call carries the records EACH server logged during that call."""
+    import grpc
+    servers = {n: GrpcLoopback(None) for n in o["servers"]}
+    clients = {}        # name -> (client, transport, channel)
+    results = []
+    is_async = bool(o.get("async"))
+
+    def install(call):
+        for sn, scr in (call.get("script") or {}).items():
+            with servers[sn].lock:
+                for p, q in scr.items():
+                    servers[sn].script[p] = list(q)
+
+    async def run():
+        for st in o["steps"]:
+            do = st["do"]
+            if do == "create":
+                try:
+                    port = servers[st["server"]].port
+                    ch = grpc.aio.insecure_channel(f"127.0.0.1:{port}") if is_async else grpc.insecure_channel(f"127.0.0.1:{port}")
+                    transport = locate(o["transport"])(channel=ch)
+                    clients[st["name"]] = (locate(o["client"])(transport=transport), transport, ch)
+                    results.append({"created": st["name"]})
+                except BaseException as e:  # noqa
+                    results.append({"raised": exc_name(e), "msg": str(e)[:300], "trace": traceback.format_exc()[-600:]})
+            elif do == "close":
+                try:
+                    client, transport, ch = clients.pop(st["name"])
+                    r = transport.close()
+                    if asyncio.iscoroutine(r) or hasattr(r, "__await__"):
+                        await r
+                    results.append({"closed": st["name"]})
+                except BaseException as e:  # noqa
+                    results.append({"raised": exc_name(e), "msg": str(e)[:300], "trace": traceback.format_exc()[-600:]})
+            elif do == "call":
+                starts = {n: len(sv.log) for n, sv in servers.items()}
+                install(st)
+                try:
+                    client = clients[st["client"]][0]
+                    args, kw = build_args(st)
+                    if is_async:
+                        if "requests" in kw:
+                            items = list(kw["requests"])
+
+                            async def agen(items=items):
+                                for it in items:
+                                    yield it
+                            kw["requests"] = agen()
+                        ret = getattr(client, st["method"])(*args, **kw)
+                        for _ in range(3):
+                            if asyncio.iscoroutine(ret) or hasattr(ret, "__await__"):
+                                ret = await ret
+                        res = {"ok": await consume_async(ret, st.get("consume", "auto"))}
+                    else:
+                        ret = getattr(client, st["method"])(*args, **kw)
+                        res = {"ok": consume_sync(ret, st.get("consume", "auto"))}
+                except BaseException as e:  # noqa
+                    res = {"raised": exc_name(e), "msg": str(e)[:300], "trace": traceback.format_exc()[-600:]}
+                res["servers"] = {n: _slice(sv.log, starts[n]) for n, sv in servers.items()}
+                results.append(res)
+        for name, (client, transport, ch) in list(clients.items()):
+            try:
+                r = ch.close()
+                if asyncio.iscoroutine(r) or hasattr(r, "__await__"):
+                    await r
+            except BaseException:  # noqa
+                pass
+    try:
+        asyncio.run(run())
+    finally:
+        for sv in servers.values():
+            sv.stop()
+    return {"steps": results}
+
 # ------------------------------------------------------------------ REST loopback
 
 
@@ -643,7 +723,7 @@ def op_wrapped_by_name(o):
     raise ValueError(kind)
 
 
-OPS = {"wrapped_by_name": op_wrapped_by_name, "grpc_session": op_grpc_session, "rest_session": op_rest_session, "wrapped": op_wrapped}
+OPS = {"grpc_multi_session": op_grpc_multi_session, "wrapped_by_name": op_wrapped_by_name, "grpc_session": op_grpc_session, "rest_session": op_rest_session, "wrapped": op_wrapped}
 
 try:  # C14: sample execution ops live in their own file (additive hook)
     import libhost_samples
